@@ -45,7 +45,7 @@ class Injector:
         self.target, self.kind, self.n, self.log = target, kind, 0, []
         self.exc, self.target2, self.kind2 = EXC[exc], target2, kind2
 
-    def call(self, name, real, partial=None):
+    def call(self, name, real, partial=None, after=None):
         i = self.n
         self.n += 1
         self.log.append(name)
@@ -56,6 +56,8 @@ class Injector:
                 if kind == 2 and partial is not None:
                     partial()
                     raise exc(f"injected part-way {name}")
+                if after is not None:
+                    return after(exc(f"injected after {name}"))     # the primitive fails itself, having taken effect
                 real()
                 raise exc(f"injected after {name}")
         return real()
@@ -77,7 +79,25 @@ def instrumented(inj: Injector):
         setattr(obj, attr, new)
 
     o_enter = T.__enter__
-    patch(T, "__enter__", lambda self: inj.call("temp-create", lambda: o_enter(self)))
+    import richchk.util.fileutils as futils
+
+    def enter_failing_late(self, err):
+        """the work file is created, then closing it reports an error: the failure happens INSIDE __enter__"""
+        import builtins
+
+        class LateFailure:
+            def __init__(self, f):
+                self.f = f
+
+            def close(self):
+                self.f.close()
+                raise err
+        futils.open = lambda *a, **k: LateFailure(builtins.open(*a, **k))
+        try:
+            return o_enter(self)
+        finally:
+            del futils.open
+    patch(T, "__enter__", lambda self: inj.call("temp-create", lambda: o_enter(self), after=lambda err: enter_failing_late(self, err)))
     o_open, o_add, o_compact, o_extract, o_close = W.open_archive, W.add_file, W.compact_archive, W.extract_file, W.close_archive
     patch(W, "open_archive", lambda self, p, m: inj.call("arch-open", lambda: o_open(self, p, m)))
     patch(W, "add_file", lambda self, *a, **k: inj.call("arch-add", lambda: o_add(self, *a, **k)))
@@ -176,6 +196,10 @@ def run_job(job):
             (work / "realdir" / "sub").mkdir(parents=True)
             os.symlink(str(work / "realdir" / "sub"), str(work / "link"))
             dst = Path(os.path.join(str(work), "link", "..", "out.scx"))
+        elif job["dst"] in ("star", "nul"):
+            # names the C library reads differently from Python: it stops at a NUL, and takes "name*master" for the file
+            # "name".  The file in front of the special character exists and is somebody else's.
+            dst = Path(str(work / "out.scx") + ("*" if job["dst"] == "star" else "\0.tmp"))
         elif job["dst"] == "brackets":
             # a file name holding glob metacharacters (the usual map tagging)
             dst = work / "[EUD] out [v1].scx"
@@ -185,7 +209,7 @@ def run_job(job):
             q = work / ("out.scx" + suffix)
             q.write_bytes(b"somebody else's file " + suffix.encode())
             bystanders[q.name] = sha(q)
-        if job["dst"] == "dotdot":
+        if job["dst"] in ("dotdot", "star", "nul"):
             q = work / "out.scx"
             q.write_bytes(b"the file a textual collapse of '..' would hit")
             bystanders[q.name] = sha(q)
@@ -251,7 +275,7 @@ def run_job(job):
         else:
             dclass = "new" if os.path.getsize(dst) > 100 else "broken"
         leftovers = sorted(os.listdir(tmpd)) + sorted(p.name for p in work.iterdir()
-                                                       if p.name not in ("tmp", "base.scx", "out.scx", "linktarget.bin", "realdir", "link", "[EUD] out [v1].scx") and not p.name.startswith("sound")
+                                                       if p.name not in ("tmp", "base.scx", "out.scx", "out.scx*", "linktarget.bin", "realdir", "link", "[EUD] out [v1].scx") and not p.name.startswith("sound")
                                                        and p.name not in bystanders)
         disturbed = sorted(nm for nm, h in bystanders.items() if sha(work / nm) != h)
         if job["dst"] == "symlink" and dclass == "unchanged" and not os.path.islink(dst):
